@@ -26,7 +26,7 @@ static unsigned char pw32[33];
 enum { K_LETTERS, K_PRIV, K_SPOOF, K_ROUTE, K_VACK, K_REFUSED, K_LOGINS, K_TUNW, K_RAWOK, K_EXPIRED_REFUSED, K_SAN = 20 };
 
 /* ---------------------------------------------------------------- alphabet */
-enum { L_V, L_VBAD, L_LOGIN, L_I, L_S, L_O, L_N, L_R, L_P, L_DATA, L_RAWLOGIN, L_RAWDATA, L_RAWPING, L_Z, L_TUN, L_TIME };
+enum { L_V, L_VBAD, L_LOGIN, L_I, L_S, L_O, L_N, L_R, L_P, L_DATA, L_RAWLOGIN, L_RAWDATA, L_RAWPING, L_Z, L_TUN, L_TIME, L_REPLAY };
 enum { HK_CUR, HK_PREV, HK_OTHER, HK_PLUS1, HK_WRONG, HK_SHORT, HK_LASTONLY, HK_FIRSTONLY, HK_ALLBUTLAST, HK_ALLBUTFIRST, HK_WRONG17, HK_WRONG18, HK_TONUL };
 enum { RK_PLUS1, RK_PLAIN, RK_WRONG, RK_LASTONLY, RK_ALLBUTLAST, RK_TONUL };
 enum { SRC_A, SRC_B, SRC_C6, NSRC };
@@ -99,6 +99,8 @@ static void mk_alphabet(void)
 		addl(L_RAWPING, s, u, 0, "rawPING(%s,u%d)", SRCN[s], u);
 	}
 	if (is03) addl(L_Z, SRC_A, -1, 0, "Z(A)");
+	/* C04: the bytes of the session's own latest data query, sent again from another address (and from its own, e.g. after expiry) */
+	if (is04) for (int u = 0; u < 2; u++) { addl(L_REPLAY, u == 0 ? SRC_B : SRC_A, u, 0, "REPLAY(%s,last data query of u%d)", SRCN[u == 0 ? SRC_B : SRC_A], u); addl(L_REPLAY, u == 0 ? SRC_A : SRC_B, u, 0, "REPLAY(%s,last data query of u%d)", SRCN[u == 0 ? SRC_A : SRC_B], u); }
 	if (is04) for (int u = 0; u < 2; u++) {
 		addl(L_P, SRC_C6, u, 0, "P(C6,u%d)", u);
 		addl(L_DATA, SRC_C6, u, -1, "DATA(C6,u%d->tun)", u);
@@ -131,6 +133,7 @@ typedef struct model {
 	unsigned seen[NS];   /* ping/data letters already sent for this slot since the last VACK (repeats are duplicates) */
 	int check_ip;
 	int nv;              /* version requests sent so far (selects the forced challenge) */
+	int lastdatalen[NS]; unsigned char lastdata[NS][400];      /* the slot's latest data query as sent from its bound address (C04: replayed verbatim by others) */
 } model;
 static model M;
 static struct tun_user *pristine;      /* users[] as init_users() left it */
@@ -205,6 +208,7 @@ static int apply(int li)
 	if (L->kind == L_LOGIN && L->arg == HK_PREV && !(u < NS && M.alloc[u] && M.hasprev[u])) return 1;
 	if (L->kind == L_LOGIN && L->arg == HK_OTHER && !(u < NS && M.alloc[u] && M.alloc[1 - u])) return 1;
 	if (L->kind == L_RAWLOGIN && L->arg != RK_WRONG && !(u < NS && M.alloc[u])) return 1;
+	if (L->kind == L_REPLAY && !(u < NS && M.alloc[u] && M.lastdatalen[u] > 0)) return 1;
 	if (L->kind == L_LOGIN && L->arg == HK_TONUL) { uint8_t r[16]; impl_login(pw32, M.cur[u], r); if (!memchr(r, 0, 15)) return 1; }
 	if (L->kind == L_RAWLOGIN && L->arg == RK_TONUL) { uint8_t r[16]; impl_login(pw32, M.cur[u] + 1, r); if (!memchr(r, 0, 15)) return 1; }
 
@@ -212,7 +216,7 @@ static int apply(int li)
 	int spoof = 0;
 	if (is04 && M.check_ip && L->src >= 0 && u >= 0 && u < NS && M.alloc[u] && M.boundset[u] && !ip_eq(&SRC[L->src], &M.bound[u])) {
 		switch (L->kind) {
-		case L_LOGIN: case L_I: case L_S: case L_O: case L_N: case L_R: case L_P: case L_DATA: case L_RAWDATA: case L_RAWPING: spoof = 1; break;
+		case L_LOGIN: case L_I: case L_S: case L_O: case L_N: case L_R: case L_P: case L_DATA: case L_REPLAY: case L_RAWDATA: case L_RAWPING: spoof = 1; break;
 		case L_RAWLOGIN: spoof = (L->arg != RK_PLUS1); break;     /* a correct raw login may rebind */
 		}
 		if (spoof) memcpy(victim_copy, &us[u], sizeof *victim_copy);
@@ -287,6 +291,7 @@ static int apply(int li)
 		break;
 	}
 	case L_RAWPING: plen = tm_raw(pkt, 0x30, u, NULL, 0); break;
+	case L_REPLAY: plen = M.lastdatalen[u]; memcpy(pkt, M.lastdata[u], plen); break;
 	case L_Z: { char s[] = "zabcAbC09"; plen = tm_query(pkt, sizeof pkt, id, QT, s, (int)strlen(s), DOM, 0); break; }
 	case L_TUN: {
 		uint8_t ip[200];
@@ -303,6 +308,7 @@ static int apply(int li)
 	if (L->kind == L_RAWLOGIN && L->arg == RK_PLUS1 && u < NS && M.alloc[u] && M.authed[u]) M.rawed[u] = 1;
 	if (L->src >= 0) {
 		if (plen < 0) vw_fatal("letter %s: could not build the datagram", L->name);
+		if (L->kind == L_DATA && u >= 0 && u < NS && M.alloc[u] && plen <= 400 && (!M.check_ip || (M.boundset[u] && ip_eq(&SRC[L->src], &M.bound[u])))) { M.lastdatalen[u] = plen; memcpy(M.lastdata[u], pkt, plen); }
 		adv_send(&SRC[L->src], SRCLEN[L->src], pkt, plen);
 	}
 	/* settle: a query parked for the 20 ms "send real soon" sweep is answered within this letter */
@@ -375,7 +381,7 @@ static int apply(int li)
 						if (is04 && M.alloc[v] && !(M.lo[v] + 60 < t_now))
 							viol("slot-taken-over-while-active", "VACK after %s hands out slot %d whose session was last active %ld s ago", L->name, v, t_now - M.lo[v]);
 						if (M.alloc[v]) { M.prev[v] = M.cur[v]; M.hasprev[v] = 1; }
-						M.alloc[v] = 1; M.cur[v] = seed; M.authed[v] = M.logged[v] = M.rawed[v] = M.rawok[v] = 0; M.codec[v] = 5;
+						M.alloc[v] = 1; M.cur[v] = seed; M.authed[v] = M.logged[v] = M.rawed[v] = M.rawok[v] = 0; M.codec[v] = 5; M.lastdatalen[v] = 0;
 						memcpy(&M.bound[v], &o->dst, sizeof M.bound[v]); M.boundset[v] = 1; M.lo[v] = M.hi[v] = t_now; M.seen[v] = 0;
 						get_setts(v, &before[v]);      /* a new session legitimately resets the slot's settings */
 					}
@@ -451,6 +457,7 @@ route_check:;
 			first = !(M.seen[u] & bit);
 			M.seen[u] |= bit;
 		}
+		if (L->kind == L_REPLAY) { cond = from_bound && M.logged[u] && !saw_badip; first = 0; }      /* an exact repeat: may be served from the answer cache */
 		if (L->kind == L_LOGIN) cond = accepted_keepalive && from_bound;
 		if (L->kind == L_RAWDATA || L->kind == L_RAWPING) cond = from_bound && M.logged[u] && M.rawok[u];
 		if (cond && live_sure && first) M.lo[u] = M.hi[u] = t_now;
